@@ -2185,10 +2185,13 @@ class IrregularLattice(Lattice):
         """Remove and add irregular sites to the order of the regular lattice."""
         mps_reg = np.arange(len(order))
         if self.remove is not None:
+            perm_backup = getattr(self, '_perm', None)
             self._perm = np.lexsort(order.T)  # allow to temporarily use lat2mps_idx for lattice
             # indices with u from regular lattice
             keep = np.ones([len(order)], np.bool_)
             keep[self.lat2mps_idx(self.remove)] = False
+            if perm_backup is not None:
+                self._perm = perm_backup  # `ordering` is a query: leave the lattice as it was
             order = order[keep]
             mps_reg = mps_reg[keep]
         if self.add is not None:
